@@ -8,11 +8,13 @@ import (
 	"encoding/hex"
 	"flag"
 	"fmt"
+	"sort"
 	"strconv"
 	"testing"
 
 	"github.com/google/gce-tcb-verifier/sev"
 	"github.com/google/gce-tcb-verifier/testing/fakeovmf"
+	epb "github.com/google/gce-tcb-verifier/proto/endorsement"
 	sgpb "github.com/google/go-sev-guest/proto/sevsnp"
 	"pgregory.net/rapid"
 
@@ -31,8 +33,10 @@ func genVcpus(t *rapid.T) int {
 	switch rapid.IntRange(0, 9).Draw(t, "vcpuKind") {
 	case 0:
 		return rapid.IntRange(241, 512).Draw(t, "vcpuBig")
-	case 1, 2, 3:
+	case 4:
 		return 1
+	case 5:
+		return rapid.IntRange(1, 512).Draw(t, "vcpuAny")
 	}
 	return rapid.SampledFrom(vcpuPool).Draw(t, "vcpus")
 }
@@ -55,6 +59,16 @@ func launch(opts *sev.LaunchOptions, img []byte) (d []byte, err error, pan any) 
 	return
 }
 
+func unsigned(img []byte, req *sev.SnpEndorsementRequest) (snp *epb.VMSevSnp, err error, pan any) {
+	defer func() {
+		if r := recover(); r != nil {
+			pan = r
+		}
+	}()
+	snp, err = sev.UnsignedSnp(img, req)
+	return
+}
+
 func productOf(genoa bool) (sgpb.SevProduct_SevProductName, int, string) {
 	if genoa {
 		return sgpb.SevProduct_SEV_PRODUCT_GENOA, refsnp.Genoa, "genoa"
@@ -74,15 +88,65 @@ func sectionSig(secs []fwgen.SevSection) string {
 	return fmt.Sprintf("n=%d multi=%d k1=%d k4=%d", len(secs), multi, kinds[1], kinds[4])
 }
 
-const validRule = "generated valid images (1-16 pages, deterministic pseudo-random body, GUID table with entries in drawn order incl. unknown fillers, SEV metadata at a drawn position) with 3-12 SEV sections (kinds 1-4, exactly one CPUID and one secrets, multi-page ranges, addresses anywhere in the 32-bit space incl. ranges ending exactly at 4 GiB, declared order shuffled), any reset-block address, vCPUs in {1..240 GCE counts, 241-512}, Milan/Genoa; oracle: sev.LaunchDigest == independent reference (own PAGE_INFO chain, own VMSA encoder with hard-coded reset state), a second call gives the same bytes, image SHA-256 unchanged, sev.UnsignedSnp lists exactly that digest for a single-count request, and for an all-counts request (1 case in 16) every listed count equals the reference for that count; non-trivial = >=4 sections or a multi-page section or vcpus>=2 or Genoa; distinct = (pages, section signature, order hash, vcpus, product)"
+// genValidCase draws a valid image: the shared generator's layout, sometimes a large image, sometimes
+// with a metadata range that passes 4 GiB or a long range, sometimes with large GUID-table entries.
+func genValidCase(t *rapid.T) (*fwgen.Layout, []byte, shapeInfo, []string) {
+	o := fwgen.Options{MinPages: 1, MaxPages: 32, WantSev: true, WantTdx: rapid.Bool().Draw(t, "alsoTdx"), MaxSevSections: 12, MaxTempMem: 2}
+	var tags []string
+	if rapid.IntRange(0, 19).Draw(t, "bigImage") == 0 {
+		o.MaxPages, o.MaxSevSections = 512, 6
+	}
+	l := fwgen.GenValid(t, o)
+	changed := false
+	switch rapid.IntRange(0, 9).Draw(t, "sectionShape") {
+	case 0:
+		l.Sev, changed = addCrossing(t, l.Sev), true
+	case 1:
+		l.Sev, changed = growSection(t, l.Sev)
+	}
+	if changed {
+		fwgen.Assemble(t, l)
+	}
+	if rapid.IntRange(0, 5).Draw(t, "bigEntries") == 0 && addBigEntries(t, l) {
+		tags = append(tags, "big-guid-entry")
+	}
+	img := l.Spec.Build()
+	if ps, pr, ok := parseSev(img); !ok || pr != l.ResetAddr || !sameSecs(ps, l.Sev) {
+		t.Fatalf("harness: the generated image does not read back as constructed (ok=%v reset %#x/%#x sections %+v / %+v)", ok, pr, l.ResetAddr, ps, l.Sev)
+	}
+	sh := shapeOf(l.Sev, len(img))
+	if len(img) > 32*4096 {
+		tags = append(tags, "image>128KiB")
+	}
+	if sh.crosses {
+		tags = append(tags, "section-passes-4GiB")
+	}
+	if sh.endsAtTop {
+		tags = append(tags, "section-ends-at-4GiB")
+	}
+	if sh.overlapsROM {
+		tags = append(tags, "section-inside-rom-range")
+	}
+	if sh.bigSection {
+		tags = append(tags, "section>=64-pages")
+	}
+	if sh.hasK4 {
+		tags = append(tags, "has-svsm-caa")
+	}
+	if !sh.ascending {
+		tags = append(tags, "declared-order-not-ascending")
+	}
+	return l, img, sh, tags
+}
+
+const validRule = "generated valid images (1-32 pages, 1 in 20 up to 512 pages; deterministic pseudo-random body, GUID table with entries in drawn order incl. unknown fillers and, 1 in 6, entries of 26-3000 bytes; SEV metadata at a drawn position) with 3-13 SEV sections (kinds 1-4, exactly one CPUID and one secrets, multi-page ranges, 1 in 10 a range of 64-1024 pages, addresses anywhere in the 32-bit space incl. ranges ending exactly at 4 GiB and, 1 in 10, a range that passes 4 GiB; declared order shuffled), any reset-block address, vCPUs in {GCE counts, any 1-512}, Milan/Genoa; oracle: sev.LaunchDigest == independent reference (own PAGE_INFO chain, own VMSA encoder with hard-coded reset state), a second call gives the same bytes, sev.UnsignedSnp lists exactly that digest for a single-count request (any count), for an all-counts request every count of sev.AllSupportedVmsaCounts is listed and every listed count equals the reference for that count, image SHA-256 unchanged after all calls; a rejection is a violation except for layouts a stricter implementation may refuse (a range inside the ROM's own guest-physical range or passing 4 GiB): those count as inconclusive; non-trivial = vcpus>=2 or a multi-page section or >=4 sections or declared order not ascending; distinct = (pages, section signature, order hash, vcpus, product)"
 
 func TestValidImagesAgreeWithReference(t *testing.T) {
 	const name = "valid/differential"
 	ev.Rule(name, validRule)
 	checks(ev.Scale(4000, 30000))
 	rapid.Check(t, func(t *rapid.T) {
-		l := fwgen.GenValid(t, fwgen.Options{MinPages: 1, MaxPages: 32, WantSev: true, WantTdx: rapid.Bool().Draw(t, "alsoTdx"), MaxSevSections: 12, MaxTempMem: 2})
-		img := l.Spec.Build()
+		l, img, sh, tags := genValidCase(t)
 		vcpus := genVcpus(t)
 		product, bits, pname := productOf(rapid.Bool().Draw(t, "genoa"))
 		before := sha256.Sum256(img)
@@ -92,6 +156,11 @@ func TestValidImagesAgreeWithReference(t *testing.T) {
 			return
 		}
 		if err != nil {
+			if sh.exotic() {
+				// the statement speaks about images the tool accepts; refusing these shapes is not a violation
+				ev.Class(name, "inconclusive/exotic-layout-rejected")
+				return
+			}
 			ev.Violation(t, "C04/valid-image-rejected", "LaunchDigest rejected a valid image: %v (sections %+v reset %#x size %#x)", err, l.Sev, l.ResetAddr, len(img))
 			return
 		}
@@ -107,7 +176,7 @@ func TestValidImagesAgreeWithReference(t *testing.T) {
 			if bytes.Equal(g1, w1) {
 				where = "ap-vmsa"
 			}
-			ev.Violation(t, "C04/digest-differs/"+where, "LaunchDigest=%x reference=%x (vcpus=%d %s sections=%+v reset=%#x size=%#x)", got, want, vcpus, pname, l.Sev, l.ResetAddr, len(img))
+			ev.Violation(t, "C04/digest-differs/"+where, "LaunchDigest=%x reference=%x (vcpus=%d %s sections=%s reset=%#x size=%#x %v)", got, want, vcpus, pname, fmtSecs(l.Sev), l.ResetAddr, len(img), tags)
 			return
 		}
 		again, _, _ := launch(&sev.LaunchOptions{Vcpus: vcpus, Product: product}, img)
@@ -115,51 +184,57 @@ func TestValidImagesAgreeWithReference(t *testing.T) {
 			ev.Violation(t, "C04/nondeterministic", "two calls differ: %x vs %x", got, again)
 			return
 		}
-		if after := sha256.Sum256(img); after != before {
-			ev.Violation(t, "C04/image-mutated", "image bytes changed during measurement")
-			return
-		}
-		if rapid.IntRange(0, 7).Draw(t, "alsoUnsigned") == 0 && vcpus <= 240 {
-			snp, uerr := sev.UnsignedSnp(img, &sev.SnpEndorsementRequest{LaunchVmsas: uint32(vcpus), Product: product})
-			if uerr != nil {
-				ev.Violation(t, "C04/unsigned-snp-error", "UnsignedSnp failed: %v", uerr)
+		if rapid.IntRange(0, 7).Draw(t, "alsoUnsigned") == 0 {
+			snp, uerr, upan := unsigned(img, &sev.SnpEndorsementRequest{LaunchVmsas: uint32(vcpus), Product: product})
+			if uerr != nil || upan != nil {
+				ev.Violation(t, "C04/unsigned-snp-error", "UnsignedSnp failed on an image LaunchDigest measures: err=%v panic=%v", uerr, upan)
 				return
 			}
 			if len(snp.Measurements) != 1 || !bytes.Equal(snp.Measurements[uint32(vcpus)], want) {
 				ev.Violation(t, "C04/unsigned-snp-differs", "UnsignedSnp measurements %v, want {%d: %x}", snp.Measurements, vcpus, want)
 				return
 			}
+			ev.Class(name, "single-count-request")
 		}
 		if rapid.IntRange(0, 15).Draw(t, "alsoAllCounts") == 0 {
-			// an all-counts request (LaunchVmsas unset): every listed count carries the digest of a
-			// launch with exactly that many VMSAs, independently of the other counts generated with it
-			snp, uerr := sev.UnsignedSnp(img, &sev.SnpEndorsementRequest{Product: product})
-			if uerr != nil {
-				ev.Violation(t, "C04/unsigned-snp-error", "UnsignedSnp (all counts) failed: %v", uerr)
+			// an all-counts request (LaunchVmsas unset, documented: "all supported VMSAs at launch in GCE"):
+			// every listed count carries the digest of a launch with exactly that many VMSAs
+			snp, uerr, upan := unsigned(img, &sev.SnpEndorsementRequest{Product: product})
+			if uerr != nil || upan != nil {
+				ev.Violation(t, "C04/unsigned-snp-error", "UnsignedSnp (all counts) failed on an image LaunchDigest measures: err=%v panic=%v", uerr, upan)
 				return
 			}
-			if len(snp.Measurements) < 2 {
-				ev.Violation(t, "C04/unsigned-snp-differs", "all-counts UnsignedSnp lists %d measurements", len(snp.Measurements))
-				return
+			listed := make([]int, 0, len(snp.Measurements))
+			for n := range snp.Measurements {
+				listed = append(listed, int(n))
 			}
-			for n, d := range snp.Measurements {
-				wn, _ := refsnp.Digest(img, toRef(l.Sev), l.ResetAddr, int(n), bits, false)
-				if !bytes.Equal(d, wn) {
-					ev.Violation(t, "C04/unsigned-snp-differs/all-counts", "all-counts UnsignedSnp entry for %d VMSAs is %x, reference %x (%s sections=%+v)", n, d, wn, pname, l.Sev)
+			sort.Ints(listed)
+			for _, n := range sev.AllSupportedVmsaCounts {
+				if _, ok := snp.Measurements[n]; !ok {
+					ev.Violation(t, "C04/unsigned-snp-differs/all-counts", "all-counts UnsignedSnp lists %v and lacks the supported count %d", listed, n)
+					return
+				}
+			}
+			for _, n := range listed {
+				wn, _ := refsnp.Digest(img, toRef(l.Sev), l.ResetAddr, n, bits, false)
+				if d := snp.Measurements[uint32(n)]; !bytes.Equal(d, wn) {
+					ev.Violation(t, "C04/unsigned-snp-differs/all-counts", "all-counts UnsignedSnp entry for %d VMSAs is %x, reference %x (%s sections=%s)", n, d, wn, pname, fmtSecs(l.Sev))
 					return
 				}
 			}
 			ev.Class(name, "all-counts-request")
 		}
-		nontrivial := len(l.Sev) >= 4 || vcpus >= 2 || pname == "genoa"
-		for _, s := range l.Sev {
-			if s.Length > 0x1000 {
-				nontrivial = true
-			}
+		if after := sha256.Sum256(img); after != before {
+			ev.Violation(t, "C04/image-mutated", "image bytes changed during measurement")
+			return
+		}
+		nontrivial := len(l.Sev) >= 4 || vcpus >= 2 || sh.multi || !sh.ascending
+		for _, tag := range tags {
+			ev.Class(name, "shape/"+tag)
 		}
 		oh := sha256.Sum256([]byte(fmt.Sprint(l.Sev)))
 		ev.Case(name, nontrivial, fmt.Sprintf("%d|%s|%x|%d|%s", len(img)/4096, sectionSig(l.Sev), oh[:4], vcpus, pname), fmt.Sprintf("%s/vcpus%s", pname, bucket(vcpus)), func() any {
-			return map[string]any{"pages": len(img) / 4096, "sections": l.Sev, "reset_addr": l.ResetAddr, "vcpus": vcpus, "product": pname, "digest": hex.EncodeToString(got)}
+			return map[string]any{"pages": len(img) / 4096, "sections": l.Sev, "reset_addr": l.ResetAddr, "vcpus": vcpus, "product": pname, "digest": hex.EncodeToString(got), "shape": tags}
 		})
 	})
 }
@@ -176,39 +251,77 @@ func bucket(v int) string {
 	return ">240"
 }
 
+const malformedRule = "a valid layout with exactly one rule of the statement broken by construction {misaligned address, misaligned length, zero length, overlap (extra range = last page / first page / inner page / same start one page longer / identical range / straddling the start / straddling the end / enclosing; kind 1 or 4; any position), overlap at the top of the 32-bit space where one range reaches or passes 4 GiB (drawn sizes, either declaration order), duplicate CPUID, duplicate secrets (before or after the original), missing unmeasured/secrets/CPUID, unknown kind (26 listed values incl. 0x10 and values whose low byte is a valid kind, or any other 32-bit value; as an additional range or re-labelling an optional range)}; the harness's own Malformed() predicate confirms the label; oracle: sev.LaunchDigest returns an error, sev.UnsignedSnp returns an error for a single-count and for an all-counts request, the image bytes are unchanged afterwards; 1 case in 40 instead has an image size that is not a multiple of 4 KiB, for which the statement defines no digest: acceptance counts as inconclusive; a panic is left to C08 and counted; non-trivial = all judged cases; distinct = (rule, variant, section signature)"
+
 func TestMalformedRejected(t *testing.T) {
 	const name = "malformed/rejected"
-	ev.Rule(name, "a valid layout with exactly one rule broken by construction {misaligned address, misaligned length, zero length, overlap, overlap visible only beyond 32-bit arithmetic, duplicate CPUID, duplicate secrets, missing unmeasured/secrets/CPUID, unknown kind, image size not a multiple of 4 KiB}; oracle: sev.LaunchDigest returns an error (the harness's own Malformed() predicate confirms the label); non-trivial = all; distinct = (rule, section signature)")
+	ev.Rule(name, malformedRule)
 	checks(ev.Scale(2500, 20000))
 	rapid.Check(t, func(t *rapid.T) {
 		l := fwgen.GenValid(t, fwgen.Options{MinPages: 1, MaxPages: 8, WantSev: true, MaxSevSections: 8})
-		var rule string
-		if rapid.IntRange(0, 11).Draw(t, "oddSize") == 0 {
+		var rule, variant string
+		odd := rapid.IntRange(0, 39).Draw(t, "oddSize") == 17 // a middle value: rapid favours the bounds
+		if odd {
 			rule = "image-size-not-page-multiple"
 			l.Spec.Size += rapid.SampledFrom([]int{1, 16, 256, 2048, 4095}).Draw(t, "extra")
 			fwgen.Assemble(t, l)
 		} else {
-			l.Sev, rule = fwgen.BreakSev(t, l.Sev)
+			l.Sev, rule, variant = breakSecs(t, l.Sev)
 			fwgen.Assemble(t, l)
 			if refsnp.Malformed(toRef(l.Sev)) == "" {
-				t.Fatalf("harness: rule %s did not produce a malformed list: %+v", rule, l.Sev)
+				t.Fatalf("harness: rule %s/%s did not produce a malformed list: %+v", rule, variant, l.Sev)
 			}
 		}
 		img := l.Spec.Build()
+		if !odd {
+			if ps, _, ok := parseSev(img); !ok || !sameSecs(ps, l.Sev) {
+				t.Fatalf("harness: the generated image does not read back as constructed: %+v / %+v", ps, l.Sev)
+			}
+		}
 		vcpus := genVcpus(t)
-		product, _, pname := productOf(rapid.Bool().Draw(t, "genoa"))
+		product, _, _ := productOf(rapid.Bool().Draw(t, "genoa"))
+		before := sha256.Sum256(img)
 		got, err, pan := launch(&sev.LaunchOptions{Vcpus: vcpus, Product: product}, img)
 		if pan != nil {
+			ev.Class(name, "panic-left-to-C08")
 			ev.Note("panic on malformed image (judged by C08): %v", pan)
 			return
 		}
 		if err == nil {
-			key := "C04/malformed-accepted/" + rule
-			ev.Violation(t, key, "LaunchDigest measured an image whose SNP metadata breaks rule %q: digest %x sections %+v", rule, got, l.Sev)
+			if odd {
+				ev.Class(name, "inconclusive/odd-size-accepted")
+				return
+			}
+			ev.Violation(t, "C04/malformed-accepted/"+rule, "LaunchDigest measured an image whose SNP metadata breaks rule %q (%s): digest %x sections %s", rule, variant, got, fmtSecs(l.Sev))
 			return
 		}
-		ev.Case(name, true, rule+"|"+sectionSig(l.Sev)+"|"+pname, rule, func() any {
-			return map[string]any{"rule": rule, "sections": l.Sev, "error": trunc(err.Error())}
+		if !odd {
+			for _, req := range []*sev.SnpEndorsementRequest{{LaunchVmsas: uint32(vcpus), Product: product}, {Product: product}} {
+				which := "single-count"
+				if req.LaunchVmsas == 0 {
+					which = "all-counts"
+				}
+				snp, uerr, upan := unsigned(img, req)
+				if upan != nil {
+					ev.Class(name, "panic-left-to-C08")
+					ev.Note("UnsignedSnp panic on malformed image (judged by C08): %v", upan)
+					return
+				}
+				if uerr == nil {
+					ev.Violation(t, "C04/malformed-accepted/unsigned-snp", "UnsignedSnp (%s request) returned an endorsement body with %d measurements and no error for an image whose SNP metadata breaks rule %q (%s), which LaunchDigest rejects with %q: sections %s", which, len(snp.GetMeasurements()), rule, variant, trunc(err.Error()), fmtSecs(l.Sev))
+					return
+				}
+			}
+		}
+		if after := sha256.Sum256(img); after != before {
+			ev.Violation(t, "C04/image-mutated", "image bytes changed while the image was being rejected (rule %s)", rule)
+			return
+		}
+		if variant != "" {
+			ev.Class(name, rule+"/"+variant)
+		}
+		ev.Case(name, true, rule+"|"+variant+"|"+sectionSig(l.Sev), rule, func() any {
+			return map[string]any{"rule": rule, "variant": variant, "sections": l.Sev, "error": trunc(err.Error())}
 		})
 	})
 }
@@ -220,15 +333,65 @@ func trunc(s string) string {
 	return s
 }
 
-// Metamorphic relations computed by the reference, plus the suite's pinned vectors as a
-// self-check of the reference itself (both PAGE_INFO formulations).
+// scriptFirmware is the 4 KiB image of the script quoted in the repository's sev_test.go (the image
+// TestUnsignedSnp measures): metadata at offset 0, two "LGTM" marks, a two-entry GUID table. Built from
+// the quoted bytes, not from repository helpers.
+func scriptFirmware() []byte {
+	fw := make([]byte, 0x1000)
+	copy(fw[0x800:], "LGTMLGTMLGTMLGTM")
+	copy(fw[0xa00:], "LGTMLGTMLGTMLGTM")
+	copy(fw, fwgen.SevMetadataBytes([]fwgen.SevSection{{Address: 0xff001000, Length: 0x1000, Kind: 1}, {Address: 0xff003000, Length: 0x1000, Kind: 3}, {Address: 0xff004000, Length: 0x1000, Kind: 2}}, nil, nil, nil))
+	s := &fwgen.Spec{Entries: []fwgen.Entry{{GUID: fwgen.SevMetaOffsetGUID, Data: fwgen.U32(0x1000)}, {GUID: fwgen.SevEsResetGUID, Data: fwgen.U32(0xff0000ff)}}}
+	tbl := s.TableBytes()
+	copy(fw[len(fw)-endOff-len(tbl):], tbl)
+	return fw
+}
+
+// SHA-256 of the repository's example images for which the pinned digests were recorded; when the test
+// helper that builds them changes, the pinned comparison is skipped (counted), not failed.
+var pinnedExamples = map[int][2]string{
+	0x1000:   {"47478af62c0a1b7beeadfaa3ede8ee05527242eec3476db94f5a718ef588eccf", "301a56e0014065ed60a3c848ea0d3d0b2aa46f4bfea9ddeadbc602146d4c087851ab2c15d573f8b2a42ecc82d74c9db8"},
+	0x200000: {"47a603340d574eaa6b5511190923112c75b04f68175223682d572968188d2d27", "20ec0dbd1c0a26d184a6f11ec5a796d68ec03c9d101bdd84c03f3d9cbbc4a292a9fad098edacfa04da0da58f20be885e"},
+}
+
+// Pinned vectors as a self-check of the reference (both PAGE_INFO formulations), then implementation ==
+// reference on the repository's example images plus metamorphic relations.
 func TestPinnedVectorsAndMetamorphic(t *testing.T) {
 	const name = "pinned+metamorphic"
-	ev.Rule(name, "the repository's CleanExample firmware at 4 KiB / 64 KiB / 2 MiB x vCPUs {1,2,4,240} x Milan/Genoa: implementation == reference == alternative byte-at-a-time reference; the suite's pinned 2 MiB/1 vCPU/Milan digest equals all three; Milan and Genoa digests differ; digest(n) != digest(n+1); all non-trivial; distinct = (size, vcpus, product)")
-	pinned, _ := hex.DecodeString("20ec0dbd1c0a26d184a6f11ec5a796d68ec03c9d101bdd84c03f3d9cbbc4a292a9fad098edacfa04da0da58f20be885e")
-	secs := []refsnp.Section{{Address: fakeovmf.SevSnpValidatedStartAddr, Length: fakeovmf.SevSnpValidatedLength, Kind: 1}, {Address: fakeovmf.SevSnpCpuidAddr, Length: 0x1000, Kind: 3}, {Address: fakeovmf.SevSnpSecretAddr, Length: 0x1000, Kind: 2}}
+	ev.Rule(name, "(a) the 4 KiB image of the suite's TestUnsignedSnp (the script quoted in sev_test.go), rebuilt from the quoted bytes without repository helpers: reference (both formulations) == the suite's pinned 4-VMSA digest (harness self-check that anchors the reference's AP VMSA), implementation == it; (b) the repository's CleanExample firmware at 4 KiB / 64 KiB / 2 MiB x vCPUs {1,2,4,240} x Milan/Genoa, sections and reset address read from the image bytes by the harness's own reader: implementation == reference == alternative byte-at-a-time reference; the suite's pinned 1 vCPU/Milan digests for the 4 KiB and the 2 MiB example equal all three (skipped and counted when the example's bytes are not the recorded ones); Milan and Genoa digests differ; digest(n) != digest(n+1); all non-trivial; distinct = (image, vcpus, product)")
+	script4, _ := hex.DecodeString("1a8cd8039cdcdcd1ec9800ca215ba5cbbed437697debf0b2fc1a9b873f1eb15f82dc7d5cf246dbee4df1bb9d3b6c7a16")
+	fw := scriptFirmware()
+	ssecs, sreset, ok := parseSev(fw)
+	if !ok {
+		t.Fatalf("harness: script firmware does not parse")
+	}
+	for _, alt := range []bool{false, true} {
+		if r, _ := refsnp.Digest(fw, ssecs, sreset, 4, refsnp.Milan, alt); !bytes.Equal(r, script4) {
+			t.Fatalf("harness: reference (alt=%v) does not reproduce the suite's 4-VMSA vector: %x", alt, r)
+		}
+	}
+	if got, err, pan := launch(&sev.LaunchOptions{Vcpus: 4, Product: sgpb.SevProduct_SEV_PRODUCT_MILAN}, fw); pan != nil || err != nil {
+		ev.Violation(t, "C04/valid-image-rejected", "suite firmware vcpus=4: err=%v panic=%v", err, pan)
+	} else if !bytes.Equal(got, script4) {
+		ev.Violation(t, "C04/digest-differs/pinned", "suite firmware vcpus=4: LaunchDigest=%x pinned=%x", got, script4)
+	} else {
+		ev.Case(name, true, "suite-4k|4", "suite-vector", func() any {
+			return map[string]any{"image": "suite 4 KiB", "vcpus": 4, "digest": hex.EncodeToString(got)}
+		})
+	}
+
 	for _, size := range []int{0x1000, 0x10000, 0x200000} {
 		img := fakeovmf.CleanExample(t, size)
+		secs, reset, ok := parseSev(img)
+		if !ok || refsnp.Malformed(secs) != "" {
+			ev.Class(name, "inconclusive/example-image-not-readable")
+			ev.Note("CleanExample(%#x) is not readable by the harness's reader (ok=%v, %s): skipped", size, ok, refsnp.Malformed(secs))
+			continue
+		}
+		sum := sha256.Sum256(img)
+		rec, havePinned := pinnedExamples[size]
+		pinned, _ := hex.DecodeString(rec[1])
+		recorded := hex.EncodeToString(sum[:]) == rec[0]
 		for _, genoa := range []bool{false, true} {
 			product, bits, pname := productOf(genoa)
 			var prev []byte
@@ -238,8 +401,8 @@ func TestPinnedVectorsAndMetamorphic(t *testing.T) {
 					ev.Violation(t, "C04/valid-image-rejected", "CleanExample(%#x) vcpus=%d: err=%v panic=%v", size, v, err, pan)
 					continue
 				}
-				w1, _ := refsnp.Digest(img, secs, fakeovmf.SevEsAddrVal, v, bits, false)
-				w2, _ := refsnp.Digest(img, secs, fakeovmf.SevEsAddrVal, v, bits, true)
+				w1, _ := refsnp.Digest(img, secs, reset, v, bits, false)
+				w2, _ := refsnp.Digest(img, secs, reset, v, bits, true)
 				if !bytes.Equal(w1, w2) {
 					t.Fatalf("harness: the two reference formulations disagree")
 				}
@@ -247,9 +410,15 @@ func TestPinnedVectorsAndMetamorphic(t *testing.T) {
 					ev.Violation(t, "C04/digest-differs/pinned", "CleanExample(%#x) vcpus=%d %s: LaunchDigest=%x reference=%x", size, v, pname, got, w1)
 					continue
 				}
-				if size == 0x200000 && v == 1 && !genoa && !bytes.Equal(got, pinned) {
-					ev.Violation(t, "C04/digest-differs/pinned", "pinned 2 MiB digest changed: %x", got)
-					continue
+				if havePinned && v == 1 && !genoa {
+					if !recorded {
+						ev.Class(name, "inconclusive/example-image-changed")
+						ev.Note("CleanExample(%#x) has SHA-256 %x, not the recorded one: pinned comparison skipped", size, sum)
+					} else if !bytes.Equal(got, pinned) {
+						ev.Violation(t, "C04/digest-differs/pinned", "pinned digest of CleanExample(%#x) changed: %x", size, got)
+						continue
+					}
+					ev.Class(name, "suite-pinned-vector")
 				}
 				if prev != nil && bytes.Equal(prev, got) {
 					ev.Violation(t, "C04/vcpus-ignored", "digest for %d vCPUs equals the previous count's", v)
@@ -262,52 +431,90 @@ func TestPinnedVectorsAndMetamorphic(t *testing.T) {
 		}
 		m, _, _ := launch(&sev.LaunchOptions{Vcpus: 1, Product: sgpb.SevProduct_SEV_PRODUCT_MILAN}, img)
 		g, _, _ := launch(&sev.LaunchOptions{Vcpus: 1, Product: sgpb.SevProduct_SEV_PRODUCT_GENOA}, img)
-		if bytes.Equal(m, g) {
+		if m != nil && bytes.Equal(m, g) {
 			ev.Violation(t, "C04/product-ignored", "Milan and Genoa digests are equal")
 		}
 	}
 }
 
-// Plain regression replays for the confirmed finding (32-bit wrap in the overlap test).
-func TestRegressionOverlapWrap32(t *testing.T) {
+// Plain replays without generators: the confirmed finding (32-bit wrap in the overlap test) and one
+// fixed instance of each shape added after the gap review, so that they are exercised at every seed.
+func TestRegressionReplays(t *testing.T) {
 	const name = "regression"
-	ev.Rule(name, "hand-written replays: two SNP sections that overlap near the top of the 32-bit space ([0xffffe000,+0x3000) and [0xfffff000,+0x1000); [0xffffd000,+0x4000) and [0xffffe000,+0x1000)) must be rejected; a range ending exactly at 4 GiB next to a disjoint one must be accepted; all non-trivial")
+	ev.Rule(name, "hand-written replays on a 2-page image: (bad, must be rejected by LaunchDigest and by single-count and all-counts UnsignedSnp) two SNP sections that overlap near the top of the 32-bit space ([0xffffe000,+0x3000) and [0xfffff000,+0x1000); [0xffffd000,+0x4000) and [0xffffe000,+0x1000)), an additional range of kind 0x10, an optional range re-labelled kind 0x10, a second CPUID range declared first; (good, when accepted the digest must equal the reference for 1 and 3 vCPUs; a refusal counts as inconclusive because these ranges lie in the ROM's own range) disjoint ranges ending exactly at 4 GiB, a range [0xfffff000,+0x3000) passing 4 GiB; all non-trivial")
 	mk := func(secs []fwgen.SevSection) []byte {
-		img := make([]byte, 0x2000)
-		var s []fakeSection
-		_ = s
 		l := &fwgen.Layout{Spec: &fwgen.Spec{Size: 0x2000, BodySeed: 7}, HasReset: true, ResetAddr: 0xff0000ff, HasSev: true, Sev: secs}
 		meta := fwgen.SevMetadataBytes(secs, nil, nil, nil)
 		l.Spec.Blobs = []fwgen.Blob{{Offset: 0x100, Data: meta}}
 		l.Spec.Entries = []fwgen.Entry{{GUID: fwgen.SevEsResetGUID, Data: fwgen.U32(l.ResetAddr)}, {GUID: fwgen.SevMetaOffsetGUID, Data: fwgen.U32(uint32(0x2000 - 0x100))}}
-		copy(img, l.Spec.Build())
-		return img
+		return l.Spec.Build()
+	}
+	with := func(base []fwgen.SevSection, extra ...fwgen.SevSection) []fwgen.SevSection {
+		return append(cloneSecs(base), extra...)
 	}
 	base := []fwgen.SevSection{{Address: 0x00801000, Length: 0x1000, Kind: 1}, {Address: 0x00803000, Length: 0x1000, Kind: 3}, {Address: 0x00804000, Length: 0x1000, Kind: 2}}
-	bad := [][]fwgen.SevSection{
-		append(append([]fwgen.SevSection(nil), base...), fwgen.SevSection{Address: 0xffffe000, Length: 0x3000, Kind: 1}, fwgen.SevSection{Address: 0xfffff000, Length: 0x1000, Kind: 1}),
-		append(append([]fwgen.SevSection(nil), base...), fwgen.SevSection{Address: 0xffffd000, Length: 0x4000, Kind: 1}, fwgen.SevSection{Address: 0xffffe000, Length: 0x1000, Kind: 4}),
+	bad := []struct {
+		label, key string
+		secs       []fwgen.SevSection
+	}{
+		{"overlap-wrap32", "overlap-wrap32", with(base, fwgen.SevSection{Address: 0xffffe000, Length: 0x3000, Kind: 1}, fwgen.SevSection{Address: 0xfffff000, Length: 0x1000, Kind: 1})},
+		{"overlap-wrap32", "overlap-wrap32", with(base, fwgen.SevSection{Address: 0xffffd000, Length: 0x4000, Kind: 1}, fwgen.SevSection{Address: 0xffffe000, Length: 0x1000, Kind: 4})},
+		{"unknown-kind-0x10-added", "unknown-kind", with(base, fwgen.SevSection{Address: 0x00806000, Length: 0x1000, Kind: 0x10})},
+		{"unknown-kind-0x10-relabelled", "unknown-kind", with(base, fwgen.SevSection{Address: 0x00806000, Length: 0x2000, Kind: 1})},
+		{"duplicate-cpuid-first", "duplicate-cpuid", append([]fwgen.SevSection{{Address: 0x00810000, Length: 0x1000, Kind: 3}}, base...)},
 	}
-	for i, secs := range bad {
-		_, err, pan := launch(sev.LaunchOptionsDefault(), mk(secs))
+	bad[3].secs[3].Kind = 0x10
+	for i, c := range bad {
+		if refsnp.Malformed(toRef(c.secs)) == "" {
+			t.Fatalf("harness: replay %s is not malformed", c.label)
+		}
+		img := mk(c.secs)
+		_, err, pan := launch(sev.LaunchOptionsDefault(), img)
 		if pan == nil && err == nil {
-			ev.Violation(t, "C04/malformed-accepted/overlap-wrap32", "overlapping sections near 4 GiB were measured without error: %+v", secs)
+			ev.Violation(t, "C04/malformed-accepted/"+c.key, "replay %s measured without error: %s", c.label, fmtSecs(c.secs))
 			continue
 		}
-		ev.Case(name, true, "bad"+strconv.Itoa(i), "overlap-wrap32", func() any { return map[string]any{"sections": secs, "rejected": true} })
+		accepted := ""
+		for _, req := range []*sev.SnpEndorsementRequest{{LaunchVmsas: 2, Product: sgpb.SevProduct_SEV_PRODUCT_MILAN}, {Product: sgpb.SevProduct_SEV_PRODUCT_GENOA}} {
+			if _, uerr, upan := unsigned(img, req); uerr == nil && upan == nil {
+				accepted = fmt.Sprintf("LaunchVmsas=%d", req.LaunchVmsas)
+			}
+		}
+		if accepted != "" {
+			ev.Violation(t, "C04/malformed-accepted/unsigned-snp", "replay %s: UnsignedSnp (%s) returned no error for an image LaunchDigest rejects (%v): %s", c.label, accepted, err, fmtSecs(c.secs))
+			continue
+		}
+		ev.Case(name, true, "bad"+strconv.Itoa(i), c.label, func() any { return map[string]any{"sections": c.secs, "rejected": true} })
 	}
-	good := append(append([]fwgen.SevSection(nil), base...), fwgen.SevSection{Address: 0xffffe000, Length: 0x1000, Kind: 1}, fwgen.SevSection{Address: 0xfffff000, Length: 0x1000, Kind: 1})
-	img := mk(good)
-	got, err, pan := launch(sev.LaunchOptionsDefault(), img)
-	if pan != nil || err != nil {
-		ev.Violation(t, "C04/valid-image-rejected", "disjoint sections ending exactly at 4 GiB rejected: err=%v panic=%v", err, pan)
-		return
+	good := []struct {
+		label string
+		secs  []fwgen.SevSection
+	}{
+		{"ends-at-4GiB", with(base, fwgen.SevSection{Address: 0xffffe000, Length: 0x1000, Kind: 1}, fwgen.SevSection{Address: 0xfffff000, Length: 0x1000, Kind: 1})},
+		{"passes-4GiB", with(base, fwgen.SevSection{Address: 0xfffff000, Length: 0x3000, Kind: 1})},
+		{"passes-4GiB-declared-first", append([]fwgen.SevSection{{Address: 0xffffc000, Length: 0x6000, Kind: 4}}, base...)},
 	}
-	want, _ := refsnp.Digest(img, toRef(good), 0xff0000ff, 1, refsnp.Milan, false)
-	if !bytes.Equal(got, want) {
-		ev.Violation(t, "C04/digest-differs/rom-or-sections-or-bsp", "top-of-4GiB sections: got %x want %x", got, want)
+	for _, c := range good {
+		if m := refsnp.Malformed(toRef(c.secs)); m != "" {
+			t.Fatalf("harness: replay %s is malformed: %s", c.label, m)
+		}
+		img := mk(c.secs)
+		for _, v := range []int{1, 3} {
+			got, err, pan := launch(&sev.LaunchOptions{Vcpus: v, Product: sgpb.SevProduct_SEV_PRODUCT_MILAN}, img)
+			if pan != nil {
+				ev.Violation(t, "C04/valid-image-panic", "replay %s: panic %v", c.label, pan)
+				continue
+			}
+			if err != nil {
+				ev.Class(name, "inconclusive/exotic-layout-rejected")
+				continue
+			}
+			want, _ := refsnp.Digest(img, toRef(c.secs), 0xff0000ff, v, refsnp.Milan, false)
+			if !bytes.Equal(got, want) {
+				ev.Violation(t, "C04/digest-differs/rom-or-sections-or-bsp", "replay %s vcpus=%d: got %x want %x (%s)", c.label, v, got, want, fmtSecs(c.secs))
+				continue
+			}
+			ev.Case(name, true, c.label+strconv.Itoa(v), c.label, func() any { return map[string]any{"sections": c.secs, "rejected": false, "vcpus": v} })
+		}
 	}
-	ev.Case(name, true, "good", "ends-at-4GiB", func() any { return map[string]any{"sections": good, "rejected": false} })
 }
-
-type fakeSection struct{}
